@@ -336,7 +336,7 @@ impl Engine for C20Engine {
         let op = (0u8..4, proptest::sample::select(codes), any::<u8>(), prop_oneof![6 => 0u8..128, 2 => 128u8..224, 1 => 224u8..248], any::<u8>()).prop_map(|(a, c, x, y, z)| [a, c, x, y, z]);
         let header = (0u8..5, any::<u8>(), prop_oneof![3 => 0u8..128, 1 => 128u8..224], any::<u8>(), 0u8..3, any::<u8>(), any::<u8>(), 0u8..16)
             .prop_map(|(m, ctor, c1, c2, pl, p1, p2, plan)| [m, ctor, c1, c2, pl, if plan < 3 { 10 + (p1 % 6) } else { 0 }, p1, p2]);
-        let cross = proptest::collection::vec((0u8..13, 0u8..4, 0u8..4, any::<u8>()), 1..50).prop_map(|ops| {
+        let cross = proptest::collection::vec((0u8..14, 0u8..4, 0u8..4, any::<u8>()), 1..50).prop_map(|ops| {
             let mut v = vec![0x40u8];
             for (c, i, j, x) in ops {
                 v.extend_from_slice(&[c, i, j, x]);
@@ -509,7 +509,7 @@ impl Engine for C20Engine {
     fn describe(&self, bytes: &[u8]) -> Value {
         if bytes.first().map_or(false, |b| b & 0x40 != 0) {
             return json!({"family": "collections of two arenas operated on together (vectors 0,1 live in arena A, vectors 2,3 in arena B)",
-                "ops": bytes.get(1..).unwrap_or(&[]).chunks(4).map(|c| format!("{}(vec {}, vec {}, {})", CROSS_OPS[(c[0] % 13) as usize], c.get(1).cloned().unwrap_or(0) % 4, c.get(2).cloned().unwrap_or(0) % 4, c.get(3).cloned().unwrap_or(0))).collect::<Vec<_>>()});
+                "ops": bytes.get(1..).unwrap_or(&[]).chunks(4).map(|c| format!("{}(vec {}, vec {}, {})", CROSS_OPS[(c[0] % 14) as usize], c.get(1).cloned().unwrap_or(0) % 4, c.get(2).cloned().unwrap_or(0) % 4, c.get(3).cloned().unwrap_or(0))).collect::<Vec<_>>()});
         }
         let case = decode_multi(bytes);
         json!({
@@ -746,9 +746,10 @@ pub fn tsan_part(tier: Tier) -> SweepOut {
 // ---------------------------------------------------------------------------------------------
 // C20, collections family: vectors living in two different arenas operated on together
 
-pub const CROSS_OPS: [&str; 13] = [
+pub const CROSS_OPS: [&str; 14] = [
     "push", "extend_from_slice", "append", "split_off_into", "clone_into", "drain", "reserve", "shrink_to_fit", "truncate", "insert",
     "into_iter sent to and finished on another thread", "Drain sent to and dropped on another thread", "Box sent to and dropped on another thread",
+    "String::extend with owned strings of the other arena, then growth",
 ];
 
 pub fn run_cross_arena(bytes: &[u8]) -> (Vec<String>, u32) {
@@ -773,12 +774,14 @@ pub fn run_cross_arena(bytes: &[u8]) -> (Vec<String>, u32) {
         let obs = |x: &Bump| (x.allocated_bytes(), x.chunk_capacity());
         for ch in bytes.get(1..).unwrap_or(&[]).chunks(4) {
             let g = |i: usize| ch.get(i).cloned().unwrap_or(0);
-            let (code, i, j, x) = (g(0) % 13, (g(1) % 4) as usize, (g(2) % 4) as usize, g(3));
+            let (code, i, j, x) = (g(0) % 14, (g(1) % 4) as usize, (g(2) % 4) as usize, g(3));
             let before = [obs(&a), obs(&b)];
             // which arenas may legitimately change: the owners of the vectors that are written
             let mut may_change = [false, false];
             may_change[owner[i]] = true;
-            if code >= 10 {
+            if code == 13 {
+                may_change = [true, true];
+            } else if code >= 10 {
                 // IntoIter, Drain and Box are Send (for Send elements) although the arena is not Sync: finishing them on
                 // another thread is only sound if that never touches the arena, so no arena may change at all
                 may_change = [false, false];
@@ -873,6 +876,35 @@ pub fn run_cross_arena(bytes: &[u8]) -> (Vec<String>, u32) {
                             .unwrap()
                         });
                     }
+                    13 => {
+                        // a string of one arena is extended with owned strings of the other one; afterwards it must still
+                        // live in, and grow in, its own arena only
+                        use bumpalo::collections::String as BString;
+                        let home = arenas[owner[i]];
+                        let other = arenas[1 - owner[i]];
+                        let mut recv = if x & 1 == 0 { BString::new_in(home) } else { BString::from_str_in("seed-", home) };
+                        let pieces = vec![BString::from_str_in("héllo ", other), BString::from_str_in("wörld", other)];
+                        match x & 6 {
+                            0 => recv.extend(pieces),
+                            2 => {
+                                for p in pieces {
+                                    recv += p.as_str();
+                                }
+                            }
+                            _ => recv.extend(pieces.iter().map(|p| p.as_str())),
+                        }
+                        let mid = obs(other);
+                        recv.reserve(300 + x as usize);
+                        for _ in 0..40 {
+                            recv.push_str("0123456789");
+                        }
+                        if obs(other) != mid {
+                            panic!("growing a string of one arena changed the other arena: (allocated_bytes, chunk_capacity) {:?} -> {:?}", mid, obs(other));
+                        }
+                        if !recv.ends_with("0123456789") || !recv.contains("wörld") {
+                            panic!("cross-arena String::extend lost text");
+                        }
+                    }
                     _ => {
                         let bx = bumpalo::boxed::Box::new_in(x as u64, arenas[owner[i]]);
                         // creating the box is an allocation in its arena; only what the other thread does must be neutral
@@ -925,6 +957,7 @@ pub fn run_cross_arena(bytes: &[u8]) -> (Vec<String>, u32) {
                 9 => t[i].insert((x as usize * (len + 1)) >> 8, 7),
                 10 => t[i].clear(),
                 11 => t[i].truncate((x as usize * (len + 1)) >> 8),
+                13 => {}
                 _ => may_change[owner[i]] = true,
             }
             let after = [obs(&a), obs(&b)];
